@@ -280,10 +280,18 @@ theorem decodeElispOctalEscape_t {f f' n : Nat} :
     | zero => exact TrK.right_fuel (main 0).frame rfl
     | succ g => exact main g
 
+theorem surrogate_not_scalar {n : Nat} (h : Utf8.isSurrogate n = true) : isScalar n = false := by
+  unfold isScalar; simp [h]
+
 theorem elispCharEscape_t {k : Nat} {acc : List UInt8} {n : Nat} :
     TrK k (elispCharEscape acc n) (elispCharEscape acc n) := by
   unfold elispCharEscape
-  tr []
+  refine TrK.ite (fun _ => ?_) (fun _ => TrK.ite (fun _ => TrK.of_neverOk ?_) (fun _ => TrK.errAt))
+  · tr []
+  · -- a surrogate: an error whether or not the input ends here
+    intro S a S' h
+    obtain ⟨o, S1, _, h⟩ := bind_ok h
+    cases o <;> simp [errAt] at h
 
 theorem elispUniCharEscape_t {k : Nat} {acc : List UInt8} {n : Nat} :
     TrK k (elispUniCharEscape acc n) (elispUniCharEscape acc n) := by
@@ -295,6 +303,15 @@ theorem parseElispEscape_t {f f' : Nat} {acc : List UInt8} :
   unfold parseElispEscape
   tr [nextOrEof_t, decodeElispHexEscape_t, decodeElispUniEscape_t, decodeElispOctalEscape_t,
     elispCharEscape_t, elispUniCharEscape_t]
+  -- `\N{U+<surrogate>`: the full run, which sees one more byte, fails as well
+  intro b
+  rename_i hsur
+  refine Bd.of_neverOk ?_
+  intro S a S' h
+  dsimp only at h
+  obtain ⟨r, S1, h1, _⟩ := bind_ok h
+  unfold elispUniCharEscape at h1
+  simp [surrogate_not_scalar hsur, errAt] at h1
 
 theorem parseElispStr_t {f f' : Nat} {acc : List UInt8} {ub mb na : Bool} :
     TrK 0 (parseElispStr f acc ub mb na) (parseElispStr f' acc ub mb na) := by
@@ -373,11 +390,24 @@ theorem asChar_t {k n : Nat} : TrK k (asChar n) (asChar n) := by
   unfold asChar
   tr []
 
+theorem asEscapedChar_t {k n : Nat} : TrK k (asEscapedChar n) (asEscapedChar n) := by
+  unfold asEscapedChar
+  refine TrK.ite (fun hsur => TrK.of_neverOk ?_) (fun _ => asChar_t)
+  -- a surrogate: an error whether or not the input ends here
+  intro S a S' h
+  obtain ⟨o, S1, _, h⟩ := bind_ok h
+  cases o with
+  | none => simp [errAt] at h
+  | some b =>
+    dsimp only at h
+    unfold asChar at h
+    simp [surrogate_not_scalar hsur, errAt] at h
+
 theorem decodeElispCharEscape_t {f f' : Nat} :
     TrK 0 (decodeElispCharEscape f) (decodeElispCharEscape f') := by
   unfold decodeElispCharEscape
   tr [nextOrEofChar_t, nextOrEof_t, decodeElispHexEscape_t, decodeElispUniEscape_t,
-    decodeElispOctalEscape_t, asChar_t, decodeUtf8Sequence_t]
+    decodeElispOctalEscape_t, asChar_t, asEscapedChar_t, decodeUtf8Sequence_t]
 
 theorem parseElispChar_t {f f' : Nat} : TrK 0 (parseElispChar f) (parseElispChar f') := by
   unfold parseElispChar
